@@ -51,6 +51,64 @@ func (ip *Interp) lastIndexOf(s, sub []*sym.Term) int {
 	return -1
 }
 
+// byteAccess gives indexed access to the bytes of a string or byte slice without copying.
+func byteAccess(v Value) (int, func(i int) *sym.Term) {
+	switch x := v.(type) {
+	case Str:
+		return len(x.B), func(i int) *sym.Term { return x.B[i] }
+	case Slice:
+		return x.Len, func(i int) *sym.Term { return (*x.at(i)).(*sym.Term) }
+	}
+	panic(fmt.Sprintf("byteAccess of %T", v))
+}
+
+// constMismatch: some position holds two different constants (so the window cannot match).
+func constMismatch(at func(i int) *sym.Term, off int, sub []*sym.Term) bool {
+	for j, c := range sub {
+		a := at(off + j)
+		if a.IsConst() && c.IsConst() && a.Val != c.Val {
+			return true
+		}
+	}
+	return false
+}
+
+func window(at func(i int) *sym.Term, off, n int) []*sym.Term {
+	w := make([]*sym.Term, n)
+	for j := range w {
+		w[j] = at(off + j)
+	}
+	return w
+}
+
+// indexOfV / lastIndexOfV: as indexOf / lastIndexOf, on the value itself (no copy
+// of the haystack; windows that differ in a constant are skipped outright).
+func (ip *Interp) indexOfV(hay Value, sub []*sym.Term) int {
+	n, at := byteAccess(hay)
+	for i := 0; i+len(sub) <= n; i++ {
+		if constMismatch(at, i, sub) {
+			continue
+		}
+		if ip.decide(ip.bytesEq(window(at, i, len(sub)), sub)) {
+			return i
+		}
+	}
+	return -1
+}
+
+func (ip *Interp) lastIndexOfV(hay Value, sub []*sym.Term) int {
+	n, at := byteAccess(hay)
+	for i := n - len(sub); i >= 0; i-- {
+		if constMismatch(at, i, sub) {
+			continue
+		}
+		if ip.decide(ip.bytesEq(window(at, i, len(sub)), sub)) {
+			return i
+		}
+	}
+	return -1
+}
+
 func (ip *Interp) bytesSliceValue(b []*sym.Term) Slice {
 	arr := make([]Value, len(b))
 	for i, t := range b {
@@ -63,16 +121,16 @@ func registerIntrinsics(ip *Interp) {
 	registerVerifsym(ip)
 
 	idx := func(ip *Interp, fr *frame, a []Value) Value {
-		return ip.intC(int64(ip.indexOf(sliceBytes(a[0]), sliceBytes(a[1]))))
+		return ip.intC(int64(ip.indexOfV(a[0], sliceBytes(a[1]))))
 	}
 	idxByte := func(ip *Interp, fr *frame, a []Value) Value {
-		return ip.intC(int64(ip.indexOf(sliceBytes(a[0]), []*sym.Term{a[1].(*sym.Term)})))
+		return ip.intC(int64(ip.indexOfV(a[0], []*sym.Term{a[1].(*sym.Term)})))
 	}
 	lastIdx := func(ip *Interp, fr *frame, a []Value) Value {
-		return ip.intC(int64(ip.lastIndexOf(sliceBytes(a[0]), sliceBytes(a[1]))))
+		return ip.intC(int64(ip.lastIndexOfV(a[0], sliceBytes(a[1]))))
 	}
 	lastIdxByte := func(ip *Interp, fr *frame, a []Value) Value {
-		return ip.intC(int64(ip.lastIndexOf(sliceBytes(a[0]), []*sym.Term{a[1].(*sym.Term)})))
+		return ip.intC(int64(ip.lastIndexOfV(a[0], []*sym.Term{a[1].(*sym.Term)})))
 	}
 	count := func(ip *Interp, fr *frame, a []Value) Value {
 		s := sliceBytes(a[0])
